@@ -517,6 +517,26 @@ var signatureTable = map[string]func(a aux) bool{
 		return a["construct"] == "data-nested-array" && a["route"] == "Export" && a["phase"] == "fatal" && in(a["depth"], "100000", "1000000") &&
 			a["class"] == "out-of-memory" && in(a["site"], "Value.exportSeen", "Value.export")
 	},
+
+	// ---- round 9
+
+	"c02-regexp-group-nesting": func(a aux) bool {
+		return strings.HasPrefix(a["construct"], "regexp-") && a["depth"] == "5000000" && in(a["route"], "Run", "RegExp", "RegExp-doubling") &&
+			a["phase"] == "fatal" && a["class"] == "stack-overflow" && strings.HasPrefix(a["site"], "parser.(*regExpParser).")
+	},
+
+	"c02-deep-data-recursion": func(a aux) bool {
+		if !in(a["construct"], "data-list", "data-nested-array", "data-prototype-chain") || a["depth"] != "1000000" || a["phase"] != "fatal" || a["class"] != "stack-overflow" {
+			return false
+		}
+		switch a["route"] {
+		case "Copy":
+			return in(a["site"], "objectClone", "(*cloner).object", "(*cloner).value", "(*cloner).valueArray", "(*cloner).stash", "(*cloner).property")
+		case "Export":
+			return strings.HasPrefix(a["site"], "Value.export")
+		}
+		return false
+	},
 }
 
 // hugeInput: the case is one of the claimed-length groups.
